@@ -275,8 +275,29 @@ class Exec:
             res = m
         return res
 
+    def eval_truth(self, st, e):
+        """truth value of a test expression.  `a and b` / `a or b` / `not a` in a test position only need the truth of their
+        operands (args and args[0] in (...)), not a merged value; short-circuit evaluation is kept."""
+        if isinstance(e, ast.BoolOp):
+            isand = isinstance(e.op, ast.And)
+            terms, pushed = [], 0
+            try:
+                for v in e.values:
+                    t = simplify(self.eval_truth(st, v))
+                    terms.append(t)
+                    if (isand and is_false(t)) or ((not isand) and is_true(t)):
+                        break
+                    st.guards.append(t if isand else Not(t)); pushed += 1
+            finally:
+                for _ in range(pushed):
+                    st.guards.pop()
+            return And(*terms) if isand else Or(*terms)
+        if isinstance(e, ast.UnaryOp) and isinstance(e.op, ast.Not):
+            return Not(self.eval_truth(st, e.operand))
+        return self.truth(st, self.eval(st, e))
+
     def e_IfExp(self, st, e):
-        c = simplify(self.truth(st, self.eval(st, e.test)))
+        c = simplify(self.eval_truth(st, e.test))
         if is_true(c):
             return self.eval(st, e.body)
         if is_false(c):
@@ -814,7 +835,7 @@ class Exec:
         return res
 
     def s_If(self, st, s):
-        c = simplify(self.truth(st, self.eval(st, s.test)))
+        c = simplify(self.eval_truth(st, s.test))
         pend = self._flush(st)
         if is_true(c):
             return pend + self.run_block(st, s.body)
